@@ -385,6 +385,8 @@ pub struct BodyIndex {
     pub loops: Vec<LoopInfo>,
     /// closures in source order: (header start, body start, body end, body is a block)
     pub closures: Vec<(usize, usize, usize, bool)>,
+    /// per closure: (parameter names, name of the method/function it is passed to)
+    pub closure_info: Vec<(String, String)>,
     /// `let [mut] v = <recv>.lock();` statements: (var, receiver text, stmt end, enclosing block close offset)
     pub lock_lets: Vec<(String, String, usize, usize)>,
     /// `drop(v)` statements: (var, stmt start)
@@ -400,6 +402,18 @@ pub struct LoopInfo {
 struct BodyVisitor<'a> {
     src: &'a Src,
     idx: BodyIndex,
+    call_stack: Vec<String>,
+}
+
+fn closure_param_names(hdr: &str) -> String {
+    // `|a: T, mut b| -> ..` -> "a,b"
+    let inner = match (hdr.find('|'), hdr[hdr.find('|').map(|i| i + 1).unwrap_or(0)..].find('|')) { (Some(a), Some(b)) => &hdr[a + 1..a + 1 + b], _ => "" };
+    let mut depth = 0i32;
+    let mut parts: Vec<String> = vec![String::new()];
+    for ch in inner.chars() {
+        match ch { '<' | '(' | '[' => { depth += 1; parts.last_mut().unwrap().push(ch); } '>' | ')' | ']' => { depth -= 1; parts.last_mut().unwrap().push(ch); } ',' if depth == 0 => parts.push(String::new()), _ => parts.last_mut().unwrap().push(ch) }
+    }
+    parts.iter().map(|p| { let n = p.split(':').next().unwrap_or("").trim(); n.trim_start_matches("mut ").trim_start_matches('&').trim().to_string() }).filter(|n| !n.is_empty()).collect::<Vec<_>>().join(",")
 }
 impl<'a, 'ast> Visit<'ast> for BodyVisitor<'a> {
     fn visit_block(&mut self, b: &'ast syn::Block) {
@@ -455,7 +469,24 @@ impl<'a, 'ast> Visit<'ast> for BodyVisitor<'a> {
         let hs = self.src.span_range(c.or1_token.span()).0;
         let br = self.src.range(&*c.body);
         self.idx.closures.push((hs, br.0, br.1, matches!(&*c.body, syn::Expr::Block(_))));
+        let he = self.src.span_range(c.or2_token.span()).1;
+        self.idx.closure_info.push((closure_param_names(&self.src.text[hs..he]), self.call_stack.last().cloned().unwrap_or_default()));
+        self.call_stack.push(String::new());
         syn::visit::visit_expr_closure(self, c);
+        self.call_stack.pop();
+    }
+    fn visit_expr_method_call(&mut self, m: &'ast syn::ExprMethodCall) {
+        self.visit_expr(&m.receiver);
+        self.call_stack.push(m.method.to_string());
+        for a in &m.args { self.visit_expr(a); }
+        self.call_stack.pop();
+    }
+    fn visit_expr_call(&mut self, c: &'ast syn::ExprCall) {
+        self.visit_expr(&c.func);
+        let name = if let syn::Expr::Path(p) = &*c.func { p.path.segments.last().map(|s| s.ident.to_string()).unwrap_or_default() } else { String::new() };
+        self.call_stack.push(name);
+        for a in &c.args { self.visit_expr(a); }
+        self.call_stack.pop();
     }
     fn visit_expr_while(&mut self, l: &'ast syn::ExprWhile) {
         let open = self.src.span_range(l.body.brace_token.span.open()).0;
@@ -578,6 +609,66 @@ pub fn find_item<'a>(file: &'a syn::File, sel: &[String]) -> Result<Found<'a>, S
 }
 
 /// functions defined in a source file: name -> [(owner type or "", returns Result)]
+/// R20: a helper function that is expanded at its call sites
+pub struct InlineDef {
+    pub src: String,
+    pub owner: String,
+    pub name: String,
+    pub params: Vec<(String, String)>,
+    pub has_self: bool,
+    pub has_try: bool,
+    pub body: String,
+}
+
+struct InlineScan { has_return: bool, has_try: bool }
+impl<'ast> Visit<'ast> for InlineScan {
+    fn visit_expr_return(&mut self, _r: &'ast syn::ExprReturn) { self.has_return = true; }
+    fn visit_expr_try(&mut self, t: &'ast syn::ExprTry) { self.has_try = true; syn::visit::visit_expr_try(self, t); }
+    fn visit_expr_closure(&mut self, _c: &'ast syn::ExprClosure) {}
+    fn visit_item(&mut self, _i: &'ast syn::Item) {}
+}
+
+/// call sites of inlinable helpers inside one function body
+struct InlineCalls<'a> { src: &'a Src, defs: &'a [InlineDef], self_ty: String, hits: Vec<((usize, usize), usize, Vec<(usize, usize)>, bool)>, try_operands: Vec<(usize, usize)> }
+impl<'a, 'ast> Visit<'ast> for InlineCalls<'a> {
+    fn visit_expr_try(&mut self, t: &'ast syn::ExprTry) {
+        self.try_operands.push(self.src.range(&*t.expr));
+        syn::visit::visit_expr_try(self, t);
+    }
+    fn visit_expr_call(&mut self, c: &'ast syn::ExprCall) {
+        if let syn::Expr::Path(p) = &*c.func {
+            let segs: Vec<String> = p.path.segments.iter().map(|s| s.ident.to_string()).collect();
+            let last = segs.last().cloned().unwrap_or_default();
+            for (k, d) in self.defs.iter().enumerate() {
+                if d.name != last || d.has_self || d.src != self.src.rel { continue; }
+                let ok = (segs.len() == 1 && d.owner.is_empty()) || (segs.len() == 2 && !d.owner.is_empty() && (segs[0] == "Self" && self.self_ty == d.owner || segs[0] == d.owner));
+                if ok && c.args.len() == d.params.len() {
+                    let r = self.src.range(c);
+                    let args = c.args.iter().map(|a| self.src.range(a)).collect();
+                    self.hits.push((r, k, args, false));
+                }
+            }
+        }
+        syn::visit::visit_expr_call(self, c);
+    }
+    fn visit_expr_method_call(&mut self, m: &'ast syn::ExprMethodCall) {
+        let recv = norm(self.src.slice(self.src.range(&*m.receiver)));
+        for (k, d) in self.defs.iter().enumerate() {
+            if d.has_self && m.method == d.name.as_str() && recv == "self" && self.self_ty == d.owner && d.src == self.src.rel && m.args.len() == d.params.len() {
+                let r = self.src.range(m);
+                let args = m.args.iter().map(|a| self.src.range(a)).collect();
+                self.hits.push((r, k, args, true));
+            }
+        }
+        syn::visit::visit_expr_method_call(self, m);
+    }
+}
+
+fn edits_text(src: &Src, range: (usize, usize), edits: &[Edit]) -> Result<String, String> {
+    let ls = apply_edits(src, range, edits.to_vec())?;
+    Ok(ls.into_iter().map(|(t, _, _)| t).collect::<Vec<_>>().join("\n"))
+}
+
 fn local_fn_table(src: &Src) -> BTreeMap<String, Vec<(String, bool)>> {
     let mut t: BTreeMap<String, Vec<(String, bool)>> = BTreeMap::new();
     for it in &src.file.items {
@@ -732,12 +823,13 @@ fn find_anchor_opt(idx: &BodyIndex, anchor: &str, fname: &str, missing: &mut Vec
 }
 
 fn fn_edits(src: &Src, take: &Take, sig: &syn::Signature, block: &syn::Block, fname: &str, edits: &mut Vec<Edit>, missing: &mut Vec<String>) -> Result<(), String> {
-    let mut bv = BodyVisitor { src, idx: BodyIndex { stmts: vec![], loops: vec![], closures: vec![], lock_lets: vec![], drops: vec![] } };
+    let mut bv = BodyVisitor { src, idx: BodyIndex { stmts: vec![], loops: vec![], closures: vec![], closure_info: vec![], lock_lets: vec![], drops: vec![] }, call_stack: vec![] };
     bv.visit_block(block);
     let idx = bv.idx;
     let body_open = src.span_range(block.brace_token.span.open()).0;
     let body_close = src.span_range(block.brace_token.span.close()).0;
     let mut last_replaced: Option<(usize, usize)> = None;
+    let mut contracted_closures: Vec<usize> = Vec::new();
     for sub in &take.subs {
         match sub {
             Sub::Contract(text) => {
@@ -792,7 +884,15 @@ fn fn_edits(src: &Src, take: &Take, sig: &syn::Signature, block: &syn::Block, fn
                 push_hint(edits, p, text, fname, true);
             }
             Sub::Closure(n, hdr, text) => {
-                let c = idx.closures.get(n - 1).ok_or(format!("{}: closure #{} not found (function has {} closures)", fname, n, idx.closures.len()))?;
+                // the n-th closure, checked by its parameter names; if the numbering moved, the unique closure with those names
+                let want = closure_param_names(hdr);
+                let mut pick = *n - 1;
+                if idx.closure_info.get(pick).map(|ci| ci.0 != want).unwrap_or(true) {
+                    let cands: Vec<usize> = idx.closure_info.iter().enumerate().filter(|(k, ci)| ci.0 == want && !contracted_closures.contains(k)).map(|(k, _)| k).collect();
+                    if cands.len() == 1 { pick = cands[0]; } else { return Err(format!("{}: closure #{} `|{}|` that carries a contract is gone or ambiguous (lost anchor)", fname, n, want)); }
+                }
+                contracted_closures.push(pick);
+                let c = idx.closures.get(pick).ok_or(format!("{}: closure #{} not found (function has {} closures)", fname, n, idx.closures.len()))?;
                 let lab = Some(format!("{}::closure{}", fname, n));
                 edits.push(Edit { start: c.0, end: c.1, text: format!("{}\n{}", hdr, text), rule: "R14-closure-contract", label: lab.clone(), prio: 0 });
                 if !c.3 {
@@ -875,6 +975,14 @@ fn fn_edits(src: &Src, take: &Take, sig: &syn::Signature, block: &syn::Block, fn
             _ => {}
         }
     }
+    // closures whose result matters to the caller but that carry no contract: Verus knows nothing about their result
+    const ERR_PATH_ADAPTORS: &[&str] = &["map_err", "inspect_err", "inspect", "with_context", "ok_or_else", "spawn", "for_each"];
+    if !take.stub {
+        for (k, ci) in idx.closure_info.iter().enumerate() {
+            if contracted_closures.contains(&k) || ERR_PATH_ADAPTORS.contains(&ci.1.as_str()) { continue; }
+            missing.push(format!("closure-without-contract: {} | {} | {} | {}", fname, ci.1, ci.0, src.line_of(idx.closures[k].0)));
+        }
+    }
     Ok(())
 }
 
@@ -905,6 +1013,7 @@ fn do_extract(args: &BTreeMap<String, String>) -> Result<(), String> {
     let mut path_rewrites: Vec<(String, String)> = Vec::new();
     // ---- L2 pre-pass: registry of skeletonised functions ("Type::fn" -> (skeleton name, returns Result))
     let mut skel_cfg = skel::Cfg::default();
+    let mut inlined_helpers: Vec<String> = Vec::new();
     let mut registry: BTreeMap<String, (String, bool)> = BTreeMap::new();
     {
         let mut cs: Option<String> = None;
@@ -938,8 +1047,55 @@ fn do_extract(args: &BTreeMap<String, String>) -> Result<(), String> {
             }
         }
     }
+    // R20 pre-pass: helpers to expand at their call sites
+    let mut inline_defs: Vec<InlineDef> = Vec::new();
+    {
+        let mut cur: Option<String> = None;
+        for d in &dirs {
+            match d {
+                Dir::Source(p) => {
+                    if !srcs.contains_key(p) { srcs.insert(p.clone(), Src::load(repo, p)?); }
+                    cur = Some(p.clone());
+                }
+                Dir::Inline(sel) => {
+                    let sp = cur.clone().ok_or("@@inline before @@source")?;
+                    let src = &srcs[&sp];
+                    let found = find_item(&src.file, sel).map_err(|e| format!("cannot inline {}: {}", sel.join(" "), e))?;
+                    let (owner, sig, block): (String, &syn::Signature, &syn::Block) = match &found {
+                        Found::ImplFn(_, f) => (sel[1].clone(), &f.sig, &f.block),
+                        Found::Item(syn::Item::Fn(f)) => (String::new(), &f.sig, &*f.block),
+                        _ => return Err(format!("cannot inline {}: not a function", sel.join(" "))),
+                    };
+                    let mut sc = InlineScan { has_return: false, has_try: false };
+                    sc.visit_block(block);
+                    if sc.has_return { return Err(format!("cannot inline {}: body has an early `return`", sel.join(" "))); }
+                    if !sig.generics.params.iter().all(|g| matches!(g, syn::GenericParam::Lifetime(_))) { return Err(format!("cannot inline {}: generic helper", sel.join(" "))); }
+                    let mut params = Vec::new();
+                    let mut has_self = false;
+                    for a in sig.inputs.iter() {
+                        match a {
+                            syn::FnArg::Receiver(rc) => { if rc.reference.is_none() { return Err(format!("cannot inline {}: by-value self", sel.join(" "))); } has_self = true; }
+                            syn::FnArg::Typed(pt) => {
+                                let name = match &*pt.pat { syn::Pat::Ident(pi) if pi.by_ref.is_none() && pi.subpat.is_none() => format!("{}{}", if pi.mutability.is_some() { "mut " } else { "" }, pi.ident), _ => return Err(format!("cannot inline {}: parameter pattern", sel.join(" "))) };
+                                let ty = norm(src.slice(src.range(&*pt.ty)));
+                                if ty.contains("impl ") { return Err(format!("cannot inline {}: `impl Trait` parameter", sel.join(" "))); }
+                                params.push((name, ty));
+                            }
+                        }
+                    }
+                    let mut auto = Auto { src, edits: vec![], errors: vec![], keep_derives_off: vec![], method_rewrites: dirs.iter().filter_map(|d| if let Dir::RewriteMethod(a, b, c) = d { Some((a.clone(), b.clone(), *c)) } else { None }).collect(), path_rewrites: dirs.iter().filter_map(|d| if let Dir::RewritePath(a, b) = d { Some((a.clone(), b.clone())) } else { None }).collect(), expr_rewrites: vec![] };
+                    auto.visit_block(block);
+                    if !auto.errors.is_empty() { return Err(format!("cannot inline {}: {}", sel.join(" "), auto.errors.join("; "))); }
+                    let body = edits_text(src, src.range(block), &auto.edits)?;
+                    inline_defs.push(InlineDef { src: sp.clone(), owner, name: sel.last().cloned().unwrap_or_default(), params, has_self, has_try: sc.has_try, body });
+                }
+                _ => {}
+            }
+        }
+    }
     for d in &dirs {
         match d {
+            Dir::Inline(_) => {}
             Dir::Unit(u) => unit = u.clone(),
             Dir::Include(p) => {
                 let t = std::fs::read_to_string(format!("{}/{}", cdir, p)).map_err(|e| format!("include {p}: {e}"))?;
@@ -1068,6 +1224,7 @@ fn do_extract(args: &BTreeMap<String, String>) -> Result<(), String> {
                             "gen_last_line": em.lines.len(), "kind": "skel", "has_contract": !cc.trim().is_empty(), "external_body": false}));
                     }
                     for u in so.unknown_calls { em.unknown_calls.push(u); }
+                    for h in so.inlined.iter() { let t = format!("{} (into {})", h, key); if !inlined_helpers.contains(&t) { inlined_helpers.push(t); } }
                     *em.rules.entry("L2-skeleton".to_string()).or_insert(0) += 1;
                     continue;
                 }
@@ -1183,6 +1340,42 @@ fn do_extract(args: &BTreeMap<String, String>) -> Result<(), String> {
                 if !auto.errors.is_empty() {
                     return Err(auto.errors.join("; "));
                 }
+                // R20: expand contract-less helpers at their call sites (only in functions whose body is verified)
+                if !inline_defs.is_empty() && !take.stub {
+                    let body_block: Option<(&syn::Block, String)> = match find_item(&src.file, &take.sel)? {
+                        Found::ImplFn(_, f) => Some((&f.block, take.sel[1].clone())),
+                        Found::Item(syn::Item::Fn(f)) => Some((&*f.block, String::new())),
+                        _ => None,
+                    };
+                    if let Some((blk, self_ty)) = body_block {
+                        let mut ic = InlineCalls { src, defs: &inline_defs, self_ty, hits: vec![], try_operands: vec![] };
+                        ic.visit_block(blk);
+                        // innermost-last: skip hits nested in another hit (the outer replacement would drop them)
+                        let hits = ic.hits.clone();
+                        for (r, k, args, _) in hits.iter() {
+                            if hits.iter().any(|(o, _, _, _)| o != r && o.0 <= r.0 && r.1 <= o.1) {
+                                return Err(format!("cannot inline {}: nested call sites", inline_defs[*k].name));
+                            }
+                            let d = &inline_defs[*k];
+                            if d.has_try && !ic.try_operands.contains(r) {
+                                return Err(format!("cannot inline {}: the helper uses `?` but a call site is not followed by `?`", d.name));
+                            }
+                            let mut t = String::from("{ /* R20: body of the helper `");
+                            t.push_str(&d.name);
+                            t.push_str("` (not under contract) expanded at its call site */\n");
+                            for (i, ar) in args.iter().enumerate() {
+                                let at = edits_text(src, *ar, &auto.edits)?;
+                                t.push_str(&format!("let vx_arg{}_{} = {};\n", k, i, at));
+                            }
+                            for (i, (pn, pt)) in d.params.iter().enumerate() {
+                                t.push_str(&format!("let {}: {} = vx_arg{}_{};\n", pn, pt, k, i));
+                            }
+                            t.push_str(&d.body);
+                            t.push_str("\n}");
+                            edits.push(Edit { start: r.0, end: r.1, text: t, rule: "R20-inline-helper", label: None, prio: 0 });
+                        }
+                    }
+                }
                 edits.extend(auto.edits);
                 for e in &edits {
                     *em.rules.entry(e.rule.to_string()).or_insert(0) += 1;
@@ -1254,6 +1447,34 @@ fn do_extract(args: &BTreeMap<String, String>) -> Result<(), String> {
         auto_lines.push(OutLine { text: "}".into(), src: None, func: Some(fdisp.clone()), label: None });
         auto_funcs.push(json!({"name": fdisp, "source": sp, "src_line": sl, "kind": "skel-auto", "has_contract": false, "external_body": false}));
     }
+    // ---- structural facts the skeleton preconditions rely on (who keeps the directory lock alive): one obligation each ----
+    for (file, st_name, field, want, label) in skel_cfg.carriers.iter() {
+        let Some(src) = srcs.get(file) else { return Err(format!("carrier: source {} is not loaded by this unit", file)); };
+        let mut found_line = 0usize;
+        let mut holds = false;
+        let mut seen = String::from("struct not found");
+        for it in src.file.items.iter() {
+            if let syn::Item::Struct(st) = it {
+                if st.ident != st_name.as_str() { continue; }
+                found_line = src.line_of(src.range(st).0);
+                seen = String::from("no such field");
+                for (i, f) in st.fields.iter().enumerate() {
+                    let fname = f.ident.as_ref().map(|x| x.to_string()).unwrap_or_else(|| i.to_string());
+                    if field != "*" && !fname.contains(field.as_str()) { continue; }
+                    let ty = norm(src.slice(src.range(&f.ty)));
+                    seen = format!("{}: {}", fname, ty);
+                    let ok = if let Some(exact) = want.strip_prefix('=') { ty.replace(' ', "") == exact.replace(' ', "") } else { ty.contains(want.as_str()) };
+                    if ok { holds = true; break; }
+                }
+            }
+        }
+        let fdisp = format!("struct {}", st_name);
+        auto_lines.push(OutLine { text: format!("// structural fact ({}:{}): `{}` must hold `{}` — found `{}`", file, found_line, st_name, want, seen), src: Some((file.clone(), found_line)), func: Some(fdisp.clone()), label: None });
+        auto_lines.push(OutLine { text: format!("pub fn carrier_{}_{}() {{", st_name, label), src: Some((file.clone(), found_line)), func: Some(fdisp.clone()), label: None });
+        auto_lines.push(OutLine { text: format!("    assert(/*@{}*/ {});", label, holds), src: Some((file.clone(), found_line)), func: Some(fdisp.clone()), label: Some(format!("{}::{}", fdisp, label)) });
+        auto_lines.push(OutLine { text: "}".into(), src: None, func: Some(fdisp.clone()), label: None });
+        auto_funcs.push(json!({"name": fdisp, "source": file, "src_line": found_line, "kind": "skel", "has_contract": true, "external_body": false}));
+    }
     if !auto_lines.is_empty() {
         // insert before the tail include (the closing of verus!)
         let pos = em.lines.iter().rposition(|l| l.text.starts_with("// ---- include lib/tail.rs")).unwrap_or(em.lines.len());
@@ -1317,7 +1538,8 @@ fn do_extract(args: &BTreeMap<String, String>) -> Result<(), String> {
     trusted.dedup();
     let m = json!({
         "unit": unit, "spec": spec_path, "lines": map, "rewrites": em.rules,
-        "functions": em.functions, "trusted": trusted, "missing_optional_anchors": em.missing_anchors, "unclassified_calls": em.unknown_calls,
+        "functions": em.functions, "trusted": trusted, "missing_optional_anchors": em.missing_anchors.iter().filter(|m| !m.starts_with("closure-without-contract:")).cloned().collect::<Vec<_>>(),
+        "closures_without_contract": em.missing_anchors.iter().filter_map(|m| m.strip_prefix("closure-without-contract: ")).map(|m| { let p: Vec<&str> = m.split(" | ").collect(); json!({"fn": p[0], "passed_to": p[1], "params": p[2], "line": p[3]}) }).collect::<Vec<_>>(), "unclassified_calls": em.unknown_calls, "inlined_helpers": inlined_helpers,
     });
     std::fs::write(map_path, serde_json::to_string(&m).unwrap()).map_err(|e| format!("{map_path}: {e}"))?;
     Ok(())
